@@ -242,7 +242,12 @@ pub(crate) mod inner {
             T: Default,
         {
             let mutex = self.0.get_or_init(Default::default);
-            let mut guard = mutex.write().unwrap();
+            // A panic inside `f` (a formatter that ICU can't build for the given options)
+            // leaves the maps in a consistent state: nothing is inserted.
+            // Don't let the poisoned lock turn every later formatting call into a panic.
+            let mut guard = mutex
+                .write()
+                .unwrap_or_else(std::sync::PoisonError::into_inner);
             f(&mut guard)
         }
     }
